@@ -41,6 +41,21 @@
 //   c09.pto_backoff          armed PTO period is not (period at backoff 1) * min(2^k, cap) after
 //                            k consecutive PTO expiries without a newly acknowledging ACK
 //   c09.timeout_noop         on_timeout before the armed deadline (>= 1 ms early) had an effect
+//   c09.removed_without_resolution  a packet is no longer tracked by the manager (`sent_packets`)
+//                            although it was neither acknowledged, nor reported through
+//                            `on_packet_loss`, nor discarded with its keys
+//   c09.resolved_still_tracked  a packet the manager reported acknowledged/lost is still tracked
+//
+// Family c09.recovery_multipath (test `txmc_c09_recovery_multipath`): the same manager with TWO
+// real paths (ids 0 = active, 1) whose RTT estimators were fed one sample each (1 s / 10 ms) before
+// the exploration starts; packets of the one ApplicationData space are sent on either path and ACK
+// frames arrive on either path.  Per-path rules as s2n-quic implements RFC 9000 9.4 ("Packets sent
+// on the old path MUST NOT contribute to congestion control or RTT estimation for the new path"):
+// the time threshold of a packet uses the estimator of the path it was SENT on
+// (`detect_lost_packets`: `context.path_by_id(unacked_sent_info.path_id)`), an RTT sample is
+// generated only if the ACK arrives on the path the largest newly acknowledged packet was sent on,
+// bytes in flight are kept per path, PTO period/backoff are those of the active path and the
+// backoff of a path is reset when an ACK newly acknowledges a packet sent on it.
 //   step.panic               any debug_assert!/check_consistency/overflow panic of the repo code
 #![allow(dead_code, unused_imports, clippy::all)]
 
@@ -152,6 +167,8 @@ enum Ev {
 
 struct Ctx<'a> {
     pm: &'a mut PathManager,
+    /// the path the packet is sent on / the ACK frame was received on
+    pid: path::Id,
     confirmed: bool,
     events: Vec<Ev>,
 }
@@ -169,10 +186,10 @@ impl recovery::Context<Server> for Ctx<'_> {
         self.pm.active_path_mut()
     }
     fn path(&self) -> &path::Path<Server> {
-        self.pm.active_path()
+        &self.pm[self.pid]
     }
     fn path_mut(&mut self) -> &mut path::Path<Server> {
-        self.pm.active_path_mut()
+        &mut self.pm[self.pid]
     }
     fn path_by_id(&self, path_id: path::Id) -> &path::Path<Server> {
         &self.pm[path_id]
@@ -181,7 +198,7 @@ impl recovery::Context<Server> for Ctx<'_> {
         &mut self.pm[path_id]
     }
     fn path_id(&self) -> path::Id {
-        self.pm.active_path_id()
+        self.pid
     }
     fn validate_packet_ack(
         &mut self,
@@ -221,6 +238,8 @@ enum St {
 #[derive(Clone, Debug, Hash)]
 struct Pkt {
     pn: u64,
+    /// index of the path it was sent on
+    path: usize,
     t_sent: u64,
     size: u16,
     eliciting: bool,
@@ -255,6 +274,10 @@ pub enum Op {
     EarlyTimeout,
     /// keys of the space discarded: `on_packet_number_space_discarded` (Handshake space only)
     DiscardSpace,
+    /// multipath family: `Send` on path `path`
+    SendOn { path: usize, eliciting: bool, size: u16 },
+    /// multipath family: `Ack` (ack_delay 0) received on path `rx`
+    AckOn { largest: u64, len: Len, rx: usize },
 }
 
 #[derive(Clone, Debug)]
@@ -266,6 +289,10 @@ pub struct Cfg {
     pub sizes_non_eliciting: &'static [u16],
     pub ticks_us: &'static [u64],
     pub delays_us: &'static [u64],
+    /// multipath family: one RTT sample fed to the estimator of each path before the exploration
+    /// (empty = single-path family: one path, estimator at its initial value)
+    pub preset_rtt_us: &'static [u64],
+    pub sizes_eliciting: &'static [u16],
 }
 
 impl Cfg {
@@ -282,6 +309,8 @@ impl Cfg {
             .set("pto_backoff_cap", PTO_BACKOFF_CAP)
             .set("peer_max_ack_delay_ms", MAX_ACK_DELAY_MS)
             .set("strict_time_threshold", STRICT_TIME_THRESHOLD)
+            .set("paths_preset_rtt_us", self.preset_rtt_us.to_vec())
+            .set("sizes_eliciting", self.sizes_eliciting.iter().map(|&s| s as u64).collect::<Vec<u64>>())
     }
 }
 
@@ -298,6 +327,8 @@ fn cfg_app(tier: Tier) -> Cfg {
         sizes_non_eliciting: &[100],
         ticks_us: TICKS,
         delays_us: &[0, 5_000],
+        preset_rtt_us: &[],
+        sizes_eliciting: &[100, 1200],
     }
 }
 
@@ -310,6 +341,25 @@ fn cfg_hs(tier: Tier) -> Cfg {
         sizes_non_eliciting: &[100],
         ticks_us: tier.pick(&[1_000, 100_000], &[1_000, 12_500, 100_000]),
         delays_us: &[0],
+        preset_rtt_us: &[],
+        sizes_eliciting: &[100, 1200],
+    }
+}
+
+/// Two paths, path 0 (active) RTT 1 s, path 1 RTT 10 ms.  Ticks 1 ms / 10 ms / 90 ms / 1 s place
+/// packets below, between and above the two time thresholds (11.25 ms and 1.125 s).
+fn cfg_mp(tier: Tier) -> Cfg {
+    Cfg {
+        family: "c09.recovery_multipath",
+        space: PacketNumberSpace::ApplicationData,
+        confirmed: true,
+        max_packets: tier.pick(5, 6),
+        sizes_non_eliciting: &[],
+        ticks_us: &[1_000, 10_000, 90_000, 1_000_000],
+        delays_us: &[0],
+        preset_rtt_us: &[1_000_000, 10_000],
+        // one size: with two the depth-7 space (> 5 M states) does not complete within the thorough budget
+        sizes_eliciting: &[1200],
     }
 }
 
@@ -327,10 +377,12 @@ pub struct Rec {
     /// when an ACK newly acknowledges a packet and when that timer expires) iff a packet sent
     /// before the largest acknowledged one remains unresolved; an armed timer is otherwise the PTO
     loss_mode: bool,
-    /// RTT samples since the estimator was (possibly) reset by persistent congestion
-    samples: Vec<u64>,
-    /// persistent congestion may have been established since the last sample (RFC 9002 5.2)
-    pc_possible: bool,
+    /// ids of the paths (index = `Pkt::path`)
+    ids: Vec<path::Id>,
+    /// per path: RTT samples since the estimator was (possibly) reset by persistent congestion
+    samples: Vec<Vec<u64>>,
+    /// per path: persistent congestion may have been established since the last sample (RFC 9002 5.2)
+    pc_possible: Vec<bool>,
     last_ack: Option<(u64, u64, u64)>,
     ack_frames: u64,
     /// consecutive PTO expiries since the last ACK that newly acknowledged a packet
@@ -379,6 +431,43 @@ impl Rec {
         let mut pm = PathManager::new(p, registry);
         // a received Handshake packet validates the path: no amplification limit
         pm.active_path_mut().on_handshake_packet();
+        let mut ids = vec![pm.active_path_id()];
+        if cfg.preset_rtt_us.len() == 2 {
+            // second path: a datagram from a new peer address after the handshake is confirmed
+            // (the way recovery/manager/tests.rs builds its two-path manager), then validated
+            let addr: std::net::SocketAddr = "127.0.0.2:80".parse().unwrap();
+            let addr = RemoteAddress::from(s2n_quic_core::inet::SocketAddress::from(addr));
+            let datagram = s2n_quic_core::inet::DatagramInfo {
+                timestamp: ts(0),
+                payload_len: 1200,
+                ecn: ExplicitCongestionNotification::default(),
+                destination_connection_id: connection::LocalId::TEST_ID,
+                destination_connection_id_classification: s2n_quic_core::connection::id::Classification::Local,
+                source_connection_id: None,
+            };
+            let (id, _) = pm
+                .on_datagram_received(
+                    &addr,
+                    &datagram,
+                    true,
+                    &mut s2n_quic_core::recovery::cubic::Endpoint::default(),
+                    &mut s2n_quic_core::path::migration::allow_all::Validator,
+                    &mut mtu::Manager::new(mtu::Config::default()),
+                    &s2n_quic_core::connection::Limits::default(),
+                    &mut Publisher::no_snapshot(),
+                )
+                .expect("second path");
+            pm[id].on_handshake_packet();
+            assert!(pm[id].is_peer_validated() && !pm[id].at_amplification_limit() && pm.active_path_id() == ids[0]);
+            ids.push(id);
+        }
+        let mut samples = vec![Vec::new(); ids.len()];
+        for (i, &us) in cfg.preset_rtt_us.iter().enumerate() {
+            // the history before the exploration: one RTT sample per path
+            pm[ids[i]].rtt_estimator.update_rtt(Duration::ZERO, Duration::from_micros(us), ts(0), cfg.confirmed, cfg.space);
+            samples[i].push(us);
+        }
+        let npaths = ids.len();
         Rec {
             mgr: Manager::new(cfg.space),
             cfg,
@@ -388,8 +477,9 @@ impl Rec {
             pkts: Vec::new(),
             largest_acked: None,
             loss_mode: false,
-            samples: Vec::new(),
-            pc_possible: false,
+            ids,
+            samples,
+            pc_possible: vec![false; npaths],
             last_ack: None,
             ack_frames: 0,
             pto_k: 0,
@@ -414,12 +504,51 @@ impl Rec {
         }
     }
 
-    fn rtt(&self) -> &RttEstimator {
-        &self.pm.active_path().rtt_estimator
+    fn rtt(&self, path: usize) -> &RttEstimator {
+        &self.pm[self.ids[path]].rtt_estimator
     }
 
-    fn model_bytes_in_flight(&self) -> u64 {
-        self.pkts.iter().filter(|p| p.st == St::Out && p.cc).map(|p| p.size as u64).sum()
+    fn model_bytes_in_flight(&self, path: usize) -> u64 {
+        self.pkts.iter().filter(|p| p.st == St::Out && p.cc && p.path == path).map(|p| p.size as u64).sum()
+    }
+
+    /// packet numbers the manager still tracks, read from its `Debug` rendering (`sent_packets`
+    /// is private to `recovery::manager`; `packet::number::Map` prints as a map keyed by
+    /// `PacketNumber(<space>, <n>)` and no other packet number occurs inside the entries)
+    fn tracked(&self) -> Result<Vec<u64>, Violation> {
+        let d = format!("{:?}", self.mgr);
+        let (Some(a), Some(b)) = (d.find("sent_packets: {"), d.find(", loss_timer: ")) else {
+            return violation("machinery.debug_format", "Manager Debug rendering has no `sent_packets: {..}, loss_timer:` section");
+        };
+        let mut out = Vec::new();
+        let mut rest = &d[a..b];
+        while let Some(i) = rest.find("PacketNumber(") {
+            rest = &rest[i + "PacketNumber(".len()..];
+            let end = rest.find(')').unwrap_or(0);
+            let n = rest[..end].rsplit(", ").next().and_then(|t| t.parse::<u64>().ok());
+            match n {
+                Some(n) => out.push(n),
+                None => return violation("machinery.debug_format", format!("cannot parse packet number in {:?}", &rest[..end.min(40)])),
+            }
+        }
+        Ok(out)
+    }
+
+    /// every packet leaves `sent_packets` through exactly one of: acknowledgement, `on_packet_loss`
+    /// callback, discard of the space
+    fn check_tracked(&self) -> Result<(), Violation> {
+        if self.discarded {
+            return Ok(());
+        }
+        let tracked = self.tracked()?;
+        for p in &self.pkts {
+            let t = tracked.contains(&p.pn);
+            ensure(t || p.st != St::Out, "c09.removed_without_resolution", || {
+                format!("pn {} (path {}, sent at {} us) is no longer tracked by the manager but was neither acknowledged nor reported lost nor discarded; tracked: {:?}", p.pn, p.path, p.t_sent, tracked)
+            })?;
+            ensure(!t || p.st == St::Out, "c09.resolved_still_tracked", || format!("pn {} was reported {:?} but is still tracked by the manager", p.pn, p.st))?;
+        }
+        Ok(())
     }
 
     // -------------------------------------------------------------------------------------
@@ -472,7 +601,6 @@ impl Rec {
         }
 
         // 2. losses
-        let (srtt_ns, latest_ns) = (self.rtt().smoothed_rtt().as_nanos(), self.rtt().latest_rtt().as_nanos());
         let mut lost_now: Vec<usize> = Vec::new();
         for ev in events {
             if let Ev::Loss(a, b) = ev {
@@ -481,6 +609,8 @@ impl Rec {
                         return violation("c09.lost_unsent", format!("on_packet_loss({a}..={b}): pn {pn} was never sent"));
                     };
                     let p = self.pkts[i].clone();
+                    // the estimator of the path the packet was sent on
+                    let (srtt_ns, latest_ns) = (self.rtt(p.path).smoothed_rtt().as_nanos(), self.rtt(p.path).latest_rtt().as_nanos());
                     ensure(p.st == St::Out, "c09.resolved_twice", || format!("pn {pn} declared lost but it was already {:?}", p.st))?;
                     ensure(!pto_expiry, "c09.pto_marks_lost", || {
                         format!("PTO expiry (loss-time timer not set; largest acked {:?}) declared pn {pn} lost", self.largest_acked)
@@ -534,30 +664,45 @@ impl Rec {
         // (smoothed_rtt + max(4*rttvar, kGranularity) + max_ack_delay) * 3.  The estimator then MAY
         // restart min_rtt (5.2 "SHOULD set the min_rtt to the newest RTT sample").  The in-tree
         // threshold is computed in whole milliseconds, hence the 6 ms margin.
-        if lost_now.len() >= 2 && !self.samples.is_empty() {
-            let r = self.rtt();
+        // Per path (s2n-quic evaluates it for the path the ACK arrived on only; the allowance is
+        // granted for any path).
+        for path in 0..self.ids.len() {
+            if lost_now.len() < 2 || self.samples[path].is_empty() {
+                continue;
+            }
+            let r = *self.rtt(path);
             let dur_us = (r.smoothed_rtt().as_micros() as u64 + (4 * r.rttvar().as_micros() as u64).max(1_000) + r.max_ack_delay().as_micros() as u64) * 3;
-            let el: Vec<&Pkt> = lost_now.iter().map(|&i| &self.pkts[i]).filter(|p| p.eliciting).collect();
+            let el: Vec<&Pkt> = lost_now.iter().map(|&i| &self.pkts[i]).filter(|p| p.eliciting && p.path == path).collect();
+            let mut possible = false;
             for a in &el {
                 for b in &el {
                     if b.pn > a.pn
                         && b.t_sent - a.t_sent + 6_000 > dur_us
                         && !self.pkts.iter().any(|q| q.pn > a.pn && q.pn < b.pn && q.st == St::Acked)
                     {
-                        self.pc_possible = true;
+                        possible = true;
                     }
                 }
+            }
+            if possible {
+                self.pc_possible[path] = true;
             }
         }
         Ok(())
     }
 
     fn check_bytes_in_flight(&self) -> Result<(), Violation> {
-        let real = self.pm.active_path().congestion_controller.bytes_in_flight() as u64;
-        let model = self.model_bytes_in_flight();
-        ensure(real == model, "c09.bytes_in_flight", || {
-            format!("congestion controller bytes_in_flight {real} != {model} = sum of unresolved in-flight packets {:?}", self.pkts.iter().filter(|p| p.st == St::Out && p.cc).map(|p| (p.pn, p.size)).collect::<Vec<_>>())
-        })
+        for path in 0..self.ids.len() {
+            let real = self.pm[self.ids[path]].congestion_controller.bytes_in_flight() as u64;
+            let model = self.model_bytes_in_flight(path);
+            ensure(real == model, "c09.bytes_in_flight", || {
+                format!(
+                    "path {path}: congestion controller bytes_in_flight {real} != {model} = sum of unresolved in-flight packets sent on it {:?}",
+                    self.pkts.iter().filter(|p| p.st == St::Out && p.cc && p.path == path).map(|p| (p.pn, p.size)).collect::<Vec<_>>()
+                )
+            })?;
+        }
+        Ok(())
     }
 
     /// RFC 9002 6.2.1 on the armed deadline
@@ -587,6 +732,7 @@ impl Rec {
     }
 
     fn after_step(&mut self) -> Result<(), Violation> {
+        self.check_tracked()?;
         self.check_bytes_in_flight()?;
         self.check_pto()
     }
@@ -595,7 +741,7 @@ impl Rec {
     // operations
     // -------------------------------------------------------------------------------------
 
-    fn do_send(&mut self, eliciting: bool, size: u16) -> Result<(), Violation> {
+    fn do_send(&mut self, path: usize, eliciting: bool, size: u16) -> Result<(), Violation> {
         let pn = self.pkts.len() as u64;
         // s2n-quic: a packet is congestion controlled iff it carries an ack-eliciting or PADDING
         // frame; the non-eliciting packets of this alphabet are ACK-only packets (RFC 9002 7:
@@ -610,7 +756,7 @@ impl Rec {
         let now = ts(self.now);
         let mut publisher = Publisher::no_snapshot();
         let events = {
-            let mut ctx = Ctx { pm: &mut self.pm, confirmed: self.cfg.confirmed, events: Vec::new() };
+            let mut ctx = Ctx { pm: &mut self.pm, pid: self.ids[path], confirmed: self.cfg.confirmed, events: Vec::new() };
             self.mgr.on_packet_sent(
                 self.cfg.space.new_packet_number(VarInt::new(pn).unwrap()),
                 outcome,
@@ -624,7 +770,7 @@ impl Rec {
             ctx.events
         };
         self.mgr.on_transmit_burst_complete(self.pm.active_path(), now, self.cfg.confirmed, &mut self.rng);
-        self.pkts.push(Pkt { pn, t_sent: self.now, size, eliciting, cc, st: St::Out, peer_acked: false });
+        self.pkts.push(Pkt { pn, path, t_sent: self.now, size, eliciting, cc, st: St::Out, peer_acked: false });
         if eliciting {
             self.last_eliciting_sent = Some(self.now);
         }
@@ -632,15 +778,21 @@ impl Rec {
         self.after_step()
     }
 
-    fn do_ack(&mut self, largest: u64, lo: u64, delay_us: u64) -> Result<(), Violation> {
+    fn do_ack(&mut self, largest: u64, lo: u64, delay_us: u64, rx: usize) -> Result<(), Violation> {
         let space = self.cfg.space;
-        let latest_before = self.rtt().latest_rtt();
+        let before: Vec<RttEstimator> = (0..self.ids.len()).map(|i| *self.rtt(i)).collect();
         // RFC 9002 5.1: a sample is generated iff the largest acknowledged packet is newly
         // acknowledged and at least one newly acknowledged packet was ack-eliciting
         let largest_newly = self.pkts.iter().any(|p| p.pn == largest && p.st == St::Out);
         let any_eliciting_newly = self.pkts.iter().any(|p| p.st == St::Out && p.pn >= lo && p.pn <= largest && p.eliciting);
         let any_newly = self.pkts.iter().any(|p| p.st == St::Out && p.pn >= lo && p.pn <= largest);
-        let sample = if largest_newly && any_eliciting_newly {
+        // RFC 9000 9.4: "Packets sent on the old path MUST NOT contribute to congestion control or
+        // RTT estimation for the new path" - an ACK received on another path than the one the
+        // largest acknowledged packet was sent on yields no sample
+        let largest_path = self.pkts.iter().find(|p| p.pn == largest).map(|p| p.path);
+        let same_path = largest_path == Some(rx);
+        let newly_on_active = self.pkts.iter().any(|p| p.st == St::Out && p.pn >= lo && p.pn <= largest && p.path == 0);
+        let sample = if largest_newly && any_eliciting_newly && same_path {
             let t_sent = self.pkts.iter().find(|p| p.pn == largest).unwrap().t_sent;
             // Timestamp has 1 us resolution: a sample below the clock resolution reads as 1 us
             Some((self.now - t_sent).max(1))
@@ -661,40 +813,52 @@ impl Rec {
         let now = ts(self.now);
         let mut publisher = Publisher::no_snapshot();
         let (res, events) = {
-            let mut ctx = Ctx { pm: &mut self.pm, confirmed: self.cfg.confirmed, events: Vec::new() };
+            let mut ctx = Ctx { pm: &mut self.pm, pid: self.ids[rx], confirmed: self.cfg.confirmed, events: Vec::new() };
             let res = self.mgr.on_ack_frame(now, f, carrier, &mut self.rng, &mut ctx, &mut publisher);
             (res, ctx.events)
         };
         ensure(res.is_ok(), "machinery.ack_rejected", || format!("on_ack_frame returned {:?}", res))?;
         self.last_ack = Some((largest, lo, delay_us));
 
-        if any_newly {
+        if any_newly && newly_on_active {
             // RFC 9002 6.2.1 / A.7: "The PTO backoff factor is reset when an acknowledgment is
-            // received" (server: always); the RTT state may have changed as well
+            // received" (server: always); the RTT state may have changed as well.  With several
+            // paths the backoff (like the RTT state) is kept per path and the PTO uses the active
+            // path (index 0): it restarts when a packet sent on that path is newly acknowledged.
             self.pto_k = 0;
             self.pto_unit = None;
         }
         self.digest(&events, Some((lo, largest)), false, false)?;
 
         // ---- RTT clauses (RFC 9002 5.1 - 5.3) ----
-        let r = *self.rtt();
+        let r = *self.rtt(rx);
+        let latest_before = before[rx].latest_rtt();
         let (latest, min, srtt) = (r.latest_rtt().as_micros() as u64, r.min_rtt().as_micros() as u64, r.smoothed_rtt().as_micros() as u64);
+        // the estimators of the other paths must not move at all
+        for i in (0..self.ids.len()).filter(|&i| i != rx) {
+            let o = *self.rtt(i);
+            ensure(
+                o.latest_rtt() == before[i].latest_rtt() && o.min_rtt() == before[i].min_rtt() && o.smoothed_rtt() == before[i].smoothed_rtt(),
+                "c09.rtt_sample_spurious",
+                || format!("ACK {lo}..={largest} received on path {rx} changed the RTT estimator of path {i}: {:?} -> {:?}", before[i], o),
+            )?;
+        }
         match sample {
             Some(s) => {
                 self.tally[3] += 1;
                 ensure(latest == s && r.latest_rtt().subsec_nanos() % 1_000 == 0, "c09.latest_rtt", || {
                     format!("ACK of pn {largest} received {s} us after it was sent: latest_rtt is {:?}", r.latest_rtt())
                 })?;
-                if self.pc_possible && min == s && self.samples.iter().any(|&o| o < s) {
+                if self.pc_possible[rx] && min == s && self.samples[rx].iter().any(|&o| o < s) {
                     // persistent congestion was established: min_rtt restarts (RFC 9002 5.2)
-                    self.samples.clear();
+                    self.samples[rx].clear();
                 }
-                self.pc_possible = false;
-                self.samples.push(s);
+                self.pc_possible[rx] = false;
+                self.samples[rx].push(s);
             }
             None => {
                 ensure(r.latest_rtt() == latest_before, "c09.rtt_sample_spurious", || {
-                    format!("ACK {lo}..={largest} generates no RTT sample (largest newly acked: {largest_newly}, ack-eliciting newly acked: {any_eliciting_newly}) but latest_rtt changed {:?} -> {:?}", latest_before, r.latest_rtt())
+                    format!("ACK {lo}..={largest} on path {rx} generates no RTT sample (largest newly acked: {largest_newly}, ack-eliciting newly acked: {any_eliciting_newly}, largest sent on path {:?}) but latest_rtt changed {:?} -> {:?}", largest_path, latest_before, r.latest_rtt())
                 })?;
             }
         }
@@ -705,8 +869,16 @@ impl Rec {
     }
 
     fn check_rtt_ranges(&self) -> Result<(), Violation> {
-        let r = *self.rtt();
-        if self.samples.is_empty() {
+        for path in 0..self.ids.len() {
+            self.check_rtt_range_of(path)?;
+        }
+        Ok(())
+    }
+
+    fn check_rtt_range_of(&self, path: usize) -> Result<(), Violation> {
+        let r = *self.rtt(path);
+        let samples = &self.samples[path];
+        if samples.is_empty() {
             ensure(
                 r.min_rtt().as_micros() as u64 == INITIAL_RTT_US && r.smoothed_rtt().as_micros() as u64 == INITIAL_RTT_US,
                 "c09.srtt_range",
@@ -714,11 +886,11 @@ impl Rec {
             )?;
             return Ok(());
         }
-        let lo = *self.samples.iter().min().unwrap() as u128 * 1_000;
-        let hi = *self.samples.iter().max().unwrap() as u128 * 1_000;
-        ensure(r.min_rtt().as_nanos() == lo, "c09.min_rtt", || format!("min_rtt {:?} but the samples are {:?} us", r.min_rtt(), self.samples))?;
+        let lo = *samples.iter().min().unwrap() as u128 * 1_000;
+        let hi = *samples.iter().max().unwrap() as u128 * 1_000;
+        ensure(r.min_rtt().as_nanos() == lo, "c09.min_rtt", || format!("path {path}: min_rtt {:?} but the samples are {:?} us", r.min_rtt(), samples))?;
         let s = r.smoothed_rtt().as_nanos();
-        ensure(s >= lo && s <= hi, "c09.srtt_range", || format!("smoothed_rtt {:?} outside the range of the samples {:?} us", r.smoothed_rtt(), self.samples))?;
+        ensure(s >= lo && s <= hi, "c09.srtt_range", || format!("path {path}: smoothed_rtt {:?} outside the range of the samples {:?} us", r.smoothed_rtt(), samples))?;
         Ok(())
     }
 
@@ -734,7 +906,8 @@ impl Rec {
         let now = ts(self.now);
         let mut publisher = Publisher::no_snapshot();
         let events = {
-            let mut ctx = Ctx { pm: &mut self.pm, confirmed: self.cfg.confirmed, events: Vec::new() };
+            // space/application.rs builds the timeout context with the active path
+            let mut ctx = Ctx { pm: &mut self.pm, pid: self.ids[0], confirmed: self.cfg.confirmed, events: Vec::new() };
             self.mgr.on_timeout(now, &mut self.rng, PTO_BACKOFF_CAP, &mut ctx, &mut publisher);
             ctx.events
         };
@@ -767,6 +940,38 @@ impl Rec {
     }
 }
 
+impl Rec {
+    /// alphabet of c09.recovery_multipath: send(path, ack-eliciting, size), tick, ack(largest in
+    /// outstanding, range {largest} | {0..=largest}, arriving on path 0 | 1), fire_timer
+    fn ops_multipath(&self) -> Vec<Op> {
+        let mut v = Vec::new();
+        if self.pkts.len() < self.cfg.max_packets {
+            for path in 0..self.ids.len() {
+                for &size in self.cfg.sizes_eliciting {
+                    v.push(Op::SendOn { path, eliciting: true, size });
+                }
+            }
+        }
+        for &t in self.cfg.ticks_us {
+            v.push(Op::Tick { us: t });
+        }
+        if self.deadline().is_some() {
+            v.push(Op::FireTimer);
+        }
+        for p in self.pkts.iter().filter(|p| p.st == St::Out) {
+            for len in [Len::One, Len::AllBelow] {
+                if len == Len::AllBelow && p.pn == 0 {
+                    continue;
+                }
+                for rx in 0..self.ids.len() {
+                    v.push(Op::AckOn { largest: p.pn, len, rx });
+                }
+            }
+        }
+        v
+    }
+}
+
 impl Sys for Rec {
     type Op = Op;
 
@@ -776,9 +981,13 @@ impl Sys for Rec {
             // the space (and its recovery manager) is dropped with its keys
             return v;
         }
+        if self.ids.len() > 1 {
+            return self.ops_multipath();
+        }
         if self.pkts.len() < self.cfg.max_packets {
-            v.push(Op::Send { eliciting: true, size: 100 });
-            v.push(Op::Send { eliciting: true, size: 1200 });
+            for &s in self.cfg.sizes_eliciting {
+                v.push(Op::Send { eliciting: true, size: s });
+            }
             for &s in self.cfg.sizes_non_eliciting {
                 v.push(Op::Send { eliciting: false, size: s });
             }
@@ -829,7 +1038,16 @@ impl Sys for Rec {
     fn step(&mut self, op: &Op) -> Result<(), Violation> {
         self.tally = [0; 4];
         match *op {
-            Op::Send { eliciting, size } => self.do_send(eliciting, size),
+            Op::Send { eliciting, size } => self.do_send(0, eliciting, size),
+            Op::SendOn { path, eliciting, size } => self.do_send(path, eliciting, size),
+            Op::AckOn { largest, len, rx } => {
+                let lo = match len {
+                    Len::One => largest,
+                    Len::Two => largest - 1,
+                    Len::AllBelow => 0,
+                };
+                self.do_ack(largest, lo, 0, rx)
+            }
             Op::Tick { us } => {
                 self.now += us;
                 Ok(())
@@ -842,11 +1060,11 @@ impl Sys for Rec {
                     Len::Two => largest - 1,
                     Len::AllBelow => 0,
                 };
-                self.do_ack(largest, lo, delay_us)
+                self.do_ack(largest, lo, delay_us, 0)
             }
             Op::DupLastAck => {
                 let (largest, lo, delay_us) = self.last_ack.expect("enabled only after an ACK");
-                self.do_ack(largest, lo, delay_us)
+                self.do_ack(largest, lo, delay_us, 0)
             }
             Op::DiscardSpace => self.do_discard(),
         }
@@ -856,7 +1074,10 @@ impl Sys for Rec {
         // Debug of the manager shows every field (sent packet map with all per-packet info, both
         // timers, PTO state, ECN counters; `packet::number::Map` hides only its ring layout).
         // Debug of the Path shows rtt estimator, CUBIC state, backoff, MTU and ECN controllers.
-        let real = format!("{:?}|{:?}", self.mgr, self.pm.active_path());
+        let mut real = format!("{:?}", self.mgr);
+        for id in &self.ids {
+            real.push_str(&format!("|{:?}", self.pm[*id]));
+        }
         for (c, n) in [&TIME_SLACK_LOSSES, &LOSSES, &PTO_EXPIRIES, &RTT_SAMPLES].iter().zip(self.tally) {
             c.fetch_add(n, Ordering::Relaxed);
         }
@@ -866,7 +1087,7 @@ impl Sys for Rec {
             &self.pkts,
             (self.largest_acked, self.loss_mode),
             &self.samples,
-            self.pc_possible,
+            &self.pc_possible,
             self.last_ack,
             (self.pto_k, self.pto_unit, self.last_eliciting_sent, self.discarded),
         ))
@@ -875,7 +1096,7 @@ impl Sys for Rec {
     fn outcome(&self) -> u64 {
         let acked = self.pkts.iter().filter(|p| p.st == St::Acked).count() as u64;
         let lost = self.pkts.iter().filter(|p| p.st == St::Lost).count() as u64;
-        acked | lost << 8 | (self.n_pto.min(15) as u64) << 16 | (self.samples.len().min(15) as u64) << 20 | (self.discarded as u64) << 24 | (self.loss_mode as u64) << 25
+        acked | lost << 8 | (self.n_pto.min(15) as u64) << 16 | (self.samples.iter().map(|s| s.len()).sum::<usize>().min(15) as u64) << 20 | (self.discarded as u64) << 24 | (self.loss_mode as u64) << 25
     }
 }
 
@@ -888,7 +1109,11 @@ fn families(tier: Tier) -> Vec<(Cfg, usize, f64)> {
     vec![(cfg_app(tier), tier.pick(6, 7), tier.pick(90.0, 480.0)), (cfg_hs(tier), tier.pick(6, 7), tier.pick(45.0, 120.0))]
 }
 
-fn replay(path: &str) {
+fn families_multipath(tier: Tier) -> Vec<(Cfg, usize, f64)> {
+    vec![(cfg_mp(tier), tier.pick(6, 7), tier.pick(90.0, 480.0))]
+}
+
+fn replay(path: &str, families: &dyn Fn(Tier) -> Vec<(Cfg, usize, f64)>) {
     let text = std::fs::read_to_string(path).expect("read replay file");
     let j = Json::parse(&text).expect("parse replay file");
     let fam = j.get("family").and_then(|f| f.as_str()).unwrap_or("").to_string();
@@ -923,8 +1148,18 @@ fn replay(path: &str) {
 
 #[test]
 fn txmc_c09_recovery() {
+    run_test("txmc_c09_recovery", &families);
+}
+
+/// ACKs spanning two paths with different RTT estimates (own result file, one report)
+#[test]
+fn txmc_c09_recovery_multipath() {
+    run_test("txmc_c09_recovery_multipath", &families_multipath);
+}
+
+fn run_test(name: &str, families: &dyn Fn(Tier) -> Vec<(Cfg, usize, f64)>) {
     if let Ok(p) = std::env::var("VERIF_REPLAY") {
-        replay(&p);
+        replay(&p, families);
         return;
     }
     let tier = Tier::from_env();
@@ -950,7 +1185,7 @@ fn txmc_c09_recovery() {
     }
     let _ = std::panic::take_hook();
     if let Ok(dir) = std::env::var("VERIF_OUT_DIR") {
-        out.write_named(&dir, "txmc_c09_recovery");
+        out.write_named(&dir, name);
     }
     assert_eq!(violations, 0, "C09 violations found (see the report)");
 }
